@@ -1407,7 +1407,7 @@ COUNTS = [253, 254, 255, 256, 257, 511, 512, 513, 768, 1024, 1280, 2048, 4096, 4
 def counts_case(draw):
     fmt = draw(st.sampled_from(["stl", "stl", "stl", "obj", "mesh", "geogram_ascii", "off", "tet", "xyz"]))
     n = draw(st.one_of(st.sampled_from(COUNTS[:14]), st.sampled_from(COUNTS[:14]), st.integers(1, 3000), st.integers(1, 40).map(lambda k: 256 * k)))
-    big = draw(st.integers(0, 39)) == 0        # 65535 .. 65537 elements: each such case costs 5 - 20 s, so about 1 case in 40
+    big = draw(st.integers(0, 39)) == 23       # 65535 .. 65537 elements: each such case costs 5 - 20 s, so about 1 case in 40 (23: not a value Hypothesis favours)
     if big:
         n = draw(st.sampled_from(COUNTS[14:]))
     return {"fmt": fmt, "strip": {"n": n, "quads": draw(st.booleans()) and fmt != "off" and not big, "scale": draw(st.sampled_from([1.0, 1 / 3, 1e-5]))},
